@@ -15,7 +15,7 @@ open XmppVerif.Gen.Supervisor
 theorem tie_resume_starts_goroutines : "go keepalive" ∈ clientResume ∧ "go c.recv" ∈ clientResume := by decide
 
 theorem tie_cleanup_raises_no_event : connectFuncLits =
-  [["for:stanza.NextPacket", "for:c.transport.GetDecoder", "for:if:c.ErrorHandler", "for:if:return",
+  [["for:stanza.NextPacket", "for:if:c.ErrorHandler", "for:if:return",
     "for:case(stanza.StreamClosePacket):c.transport.ReceivedStreamClose", "for:case(stanza.StreamClosePacket):return"]] := by decide
 
 theorem tie_retry_loop : smResume =
